@@ -4,6 +4,7 @@ package props
 // shared by the model-based properties C03, C04, C05, C06, C18, C20.
 
 import (
+	"context"
 	"fmt"
 	"os"
 	"reflect"
@@ -126,6 +127,12 @@ func modelDiff(a *app.App, inputs []BS, mode app.Mode, asp diffAspects, hooks *d
 			return nil, f, "cannot-write-catalogues"
 		}
 		shared.UsePo, shared.PoDir = true, dir
+	}
+	if shared.UseDb && mode.Kind == "persist" && mode.Backend == "mem" && len(inputs)%2 == 0 {
+		// one store object for the application's data and its sessions
+		if d, err := storage.Open(context.Background()); err == nil {
+			shared.DbStore = d
+		}
 	}
 	real := app.NewSession(shared, mode, storage)
 	var pred *app.Session
